@@ -843,7 +843,12 @@ def cmd_harness(args):
         for p in r.problems:
             print("   NO-VERDICT:", p[:2000])
             rc = max(rc, 2)
+        nunk = sum(1 for ob in r.obligations if ob["status"] == "UNKNOWN")
+        if nunk:
+            print("   (%d obligations UNKNOWN: cut off by a failed unwinding assertion)" % nunk)
         for ob in r.obligations:
+            if ob["status"] == "UNKNOWN":
+                continue
             if ob["label"] or ob["status"] != "SUCCESS":
                 print("   %-8s %-55s %s %s:%s" % (ob["status"], ob["label"] or ob["id"], ob["cls"],
                                                    os.path.basename(ob["file"]), ob["line"]))
